@@ -200,6 +200,49 @@ func mempoolSessions(base *Scenario, begin, end int, b *Builder, view *View, h i
 	chain := base.Genesis.ChainID
 	price := u256(govLimbs(view.Gov, "gasPrice"))
 	gas := govLimbs(view.Gov, "minTrxGas").Uint64()
+	mkv0 := func(desc string, at map[int][]Op) {
+		v := withInjections(base, fmt.Sprintf("block %d: session %s", h, desc), at)
+		v.Class, v.Hot, v.Edge, v.Block = "session:"+desc, 3, true, h
+		out = append(out, v)
+	}
+	// validators the block's header reports as absent or accuses: BeginBlock looks their records up and rewrites them -
+	// mempool traffic about exactly those validators before and right after BeginBlock
+	if hd := base.Ops[begin].Hdr; hd != nil {
+		named := map[string]bool{}
+		for _, vt := range hd.Votes {
+			if !vt.Signed {
+				named[vt.Addr] = true
+			}
+		}
+		for _, evd := range hd.Evidence {
+			named[evd.Addr] = true
+		}
+		var names []string
+		for a := range named {
+			names = append(names, a)
+		}
+		sort.Strings(names)
+		for _, a := range names {
+			vi := kr.Index(unhex(a))
+			if vi <= 0 {
+				continue
+			}
+			n4 := uint64(view.Accts["a4"].Nonce)
+			stake := Op{Kind: "check", Tx: HexTx(b.Sign(newStake(kr, 4, vi, n4, gas, price, "2e18"), 4, chain)), Tag: "session:stake-to-named-validator"}
+			mkv0("delegation to an absent / accused validator before BeginBlock", map[int][]Op{begin: {stake}})
+			mkv0("delegation to an absent / accused validator after BeginBlock", map[int][]Op{begin + 1: {stake}})
+			if d, ok := view.Delegs[fmt.Sprintf("a%d", vi)]; ok && len(d.Stakes) > 0 {
+				st := d.Stakes[len(d.Stakes)-1]
+				oi := 0
+				fmt.Sscanf(st.From, "a%d", &oi)
+				if oi > 0 {
+					un := Op{Kind: "check", Tx: HexTx(b.Sign(newUnstake(kr, oi, vi, uint64(view.Accts[st.From].Nonce), gas, price, kr.HashOf(st.ID)), oi, chain)),
+						Tag: "session:unstake-from-named-validator"}
+					mkv0("un-staking from an absent / accused validator before BeginBlock", map[int][]Op{begin: {un}})
+				}
+			}
+		}
+	}
 	for i := begin + 1; i < end && i < len(base.Ops); i++ {
 		op := base.Ops[i]
 		if op.Kind != "deliver" {
